@@ -56,11 +56,14 @@ def intervals(seed, tier="quick"):
 
 def work(tier, seed):
     b = bounds(tier)
-    return [{"ladder": n} for n in (ot.LADDER_QUICK if tier == "quick" else ot.LADDER_THOROUGH[:-1])] + [
-        {"blocks": [list(x) for x in bl], "grid": g}
-        for bl in ot.order_types(b["max_pos"], b["max_neg"], 1, 1)
-        for g in b["grids"]
-    ]
+    items = [{"ladder": n} for n in (ot.LADDER_QUICK if tier == "quick" else ot.LADDER_THOROUGH[:-1])]
+    for bl in ot.order_types(b["max_pos"], b["max_neg"], 1, 1):
+        # thorough: data sets of up to 6 samples get every grid, easy count and interval pair; the 4,600 larger
+        # order types the three main grids with the quick menus
+        full = tier == "quick" or sum(a + c for a, c in bl) <= 6
+        for g in (b["grids"] if full else ["irregular", "int", "ulp_pow2"]):
+            items.append({"blocks": [list(x) for x in bl], "grid": g, "full": full})
+    return items
 
 
 def _snip(pos, neg, cfg, ep, en, call):
@@ -86,7 +89,10 @@ def run(item, ctx, tier, seed):
     dt = {"uint": np.uint8, "float32": np.float32}.get(gkind)
     cross = any(a > 0 and c > 0 for a, c in blocks)
     anytie = any(a + c > 1 for a, c in blocks)
-    ivs = intervals(seed, tier)
+    full = item.get("full", True)
+    ivs = intervals(seed, tier if full else "quick")
+    if not full:
+        b = dict(b, easy=bounds("quick")["easy"])
     TOL = 1e-9
     for cfg in ot.CFGS:
         sc, ec = cfg
